@@ -69,6 +69,12 @@ func runC04(a *args) error {
 		}
 		atCut, _, _ := src.contents()
 		snap, serr := src.ds.VerifSnapshot(0)
+		// the snapshotting replica goes on: it applies the rest and takes a later snapshot while the first one is still
+		// referenced (the log store caches it, messages to lagging followers carry it) - the first must not change
+		for _, ch := range log[cut:] {
+			src.apply(r, ch)
+		}
+		src.ds.VerifSnapshot(0)
 		src.close()
 		if serr != nil {
 			st.ImplFailures = append(st.ImplFailures, implFailure{Case: i, What: "snapshot failed: " + serr.Error(), Key: "snapshot-error", Input: c})
